@@ -1,7 +1,7 @@
 # sourced by every script in /verif/bin
 export PATH=/opt/veriftools/go1.26.8/bin:$PATH
 export GOTOOLCHAIN=local GOFLAGS=-mod=mod GOPROXY=off GOSUMDB=off GONOSUMDB='*' GONOSUMCHECK=1 GOFLAGS=-mod=mod
-export CGO_ENABLED=0
+# cgo stays at its default: -race needs it
 VERIF_ROOT="${VERIF_ROOT:-$(cd "$(dirname "${BASH_SOURCE[0]}")/.." && pwd)}"
 REPO="${VERIF_REPO:-/repo}"
 export VERIF_ROOT REPO
